@@ -46,9 +46,12 @@ TEXT = {'design_ref': 'DESIGN.md section 4, C19 (and 3.5 for the hooks and the c
          'function (rest of the programs and calls, 20 per pool thread still in the tables for a Shutdown call, 4 per inbox Message, 2 per batch '
          'Message of each pool thread) strictly decreases with every step of every thread once _shuttingDown is set; shutdown_terminates - every run '
          'from a configuration inside Shutdown has at most rank steps and can stop only when every user thread, in particular the one inside '
-         'Shutdown, has returned; shutdown_join_waits - a join returns only for an ended pool thread.  STILL OPEN (statement kept in a comment of '
-         'Props/C19.lean, checked on every generated schedule by the harness): when Shutdown reaches its final section EVERY pool thread has ended '
-         '(needs the cover invariant through the three phases of ShutdownThreadsInTableWithoutDeadlocking).',
+         'Shutdown, has returned; shutdown_join_waits - a join returns only for an ended pool thread.  shutdown_returns_all_exited - if Shutdown is called by one thread only (necessary: two_shutdowns_overtake), then at '
+         'its final section every pool thread ever created has ended (cover invariant: each pool thread has ended, or is in one of the two tables, '
+         'or is in the list Shutdown is joining; shutdown_join_cover is the same invariant during the joins).  MASSERT freedom (the model does not '
+         'represent assertion aborts): massert_dispatch_207 / massert_dispatch_holds_in_loop, massert_finished_252, massert_finished_261, '
+         'massert_send_144, massert_received_165 state the asserted conditions of ThreadPool.cpp as predicates on the configuration and prove them; '
+         'not covered: the two _internalQueue assertions (lines 145, 166).',
  'note': 'Sequential consistency of the hooked steps; pool-thread inbox abstracted (C11); client discipline as documented for IThreadPoolClient.  '
          'Theorems named *_partial say in their doc comment what is missing.  Trusted: Lean kernel, statement file, scheduler + hooks, sampling '
          'correspondence.'}
